@@ -3,8 +3,8 @@
    Part 1 mirrors src/policy.rs (as fixed by the F9 commits) function by function:
      uses_bash_tool, extract_bash_commands, shell_words, extract_agentpack_invocations,
      is_agentpack_token, is_env_assignment, is_shell_separator, skip_global_flags,
-     agentpack_command_id, lint_claude_command_dangerous_defaults, and the decision parts of the
-     simpler lint rules (skill front matter, allowed-tools, required targets/modules, lockfile pins).
+     agentpack_command_id, lint_claude_command_dangerous_defaults (the simpler rules are in
+     Model/PolicyRules.v).
    Part 2 is the REFERENCE READING of a shell line, written from the shell's / clap's point of view and
    sharing no code with part 1 beyond Base.Str and the generated tables.  *)
 From AP Require Import Base.Str Gen.Tables.
